@@ -337,3 +337,159 @@ func ruleSelfPrintingValues(p *Prog, a *Anchors, r *Report, rule string) {
 		r.Trivial("none", "-", "no type prints a *Value it holds")
 	}
 }
+
+// ruleNestingBound: templates load other templates while they are compiled (include, extends, import, ssi) and execute
+// other templates while they are executed (include, ssi). Both recursions run on the Go stack; a cycle — a template that
+// includes itself, two that extend each other — must end in an error, not in stack exhaustion (which no recover catches).
+// Structure that guarantees it: the function that loads/executes for a tag takes a nesting depth, refuses beyond a
+// constant before doing anything, and every tag passes the depth it runs at plus one.
+func ruleNestingBound(p *Prog, a *Anchors, r *Report, rule string) {
+	r.Begin(rule, "nested loading and nested execution of templates carry a depth that every tag increases and a constant bounds: self-including or mutually extending templates end in an error instead of exhausting the stack", 4)
+	isDepthLoad := func(v ssa.Value) bool {
+		_, n, fld := fieldLoadBase(v)
+		return n != nil && (n == a.Template || n == a.ExecCtx) && fld != "" && isIntType(v.Type())
+	}
+	plusOne := func(v ssa.Value) bool {
+		bo, ok := v.(*ssa.BinOp)
+		if !ok || bo.Op != token.ADD {
+			return false
+		}
+		k, isC := constInt(bo.Y)
+		return isC && k >= 1 && isDepthLoad(bo.X)
+	}
+	// targets: what tag code calls to load or to execute another template
+	targets := map[*ssa.Function]string{}
+	for f := range a.FileLoaders {
+		targets[f] = "load"
+	}
+	for _, f := range p.Methods(a.Template) {
+		for i := 0; i < f.Signature.Params().Len(); i++ {
+			if types.Identical(f.Signature.Params().At(i).Type(), a.Context) {
+				targets[f] = "execute"
+			}
+		}
+	}
+	isTagCode := func(f *ssa.Function) bool {
+		top := topLevel(f)
+		if recv := top.Signature.Recv(); recv != nil {
+			if n := structOf(recv.Type()); n != nil {
+				if n == a.Template || n == a.TemplateSet {
+					return false
+				}
+				for _, nt := range a.NodeTypes {
+					if nt == n {
+						return true
+					}
+				}
+				return false
+			}
+		}
+		for _, tp := range a.TagParsers {
+			if tp == top {
+				return true
+			}
+		}
+		return false
+	}
+	nCalls := 0
+	p.EachInstr(func(f *ssa.Function, in ssa.Instruction) {
+		ci, ok := in.(ssa.CallInstruction)
+		if !ok || ci.Common().StaticCallee() == nil {
+			return
+		}
+		kind, isTarget := targets[ci.Common().StaticCallee()]
+		if !isTarget || !isTagCode(f) {
+			return
+		}
+		nCalls++
+		key := p.FuncName(f) + ":" + kind + " " + ci.Common().StaticCallee().Name()
+		// a depth argument of the form <template|context>.depth + 1
+		hasDepth := false
+		for _, arg := range ci.Common().Args {
+			if plusOne(arg) {
+				hasDepth = true
+			}
+		}
+		if hasDepth {
+			r.OK(key, p.InstrPos(in), "passes its own nesting depth + 1")
+		} else if kind == "load" && topLevel(f).Name() == "Execute" && topLevel(f).Signature.Recv() != nil {
+			// a template compiled at execution time (computed include) starts a new compile; the execution depth bounds the cycle
+			r.OK(key, p.InstrPos(in), "compiled at execution time: bounded by the execution depth of the call that follows")
+		} else {
+			r.Bad(key, p.InstrPos(in), "a tag %ss another template through %s without passing on a nesting depth: a template that (directly or through others) refers to itself recurses until the stack is exhausted and the process dies", kind, p.FuncName(ci.Common().StaticCallee()))
+		}
+	})
+	if nCalls == 0 {
+		r.Unk("tag-calls", "-", "no tag loads or executes another template: the rule does not see the code it was written for")
+	}
+	// the callee side: a depth parameter tested against a constant, the refusing edge returns an error, before the work
+	for f, kind := range targets {
+		var dparam *ssa.Parameter
+		for _, pa := range f.Params {
+			if isIntType(pa.Type()) {
+				dparam = pa
+			}
+		}
+		if dparam == nil {
+			continue // the exported API: depth 0 by definition
+		}
+		key := p.FuncName(f) + ":bound"
+		var test *ssa.If
+		for _, b := range f.Blocks {
+			iff, ok := b.Instrs[len(b.Instrs)-1].(*ssa.If)
+			if !ok {
+				continue
+			}
+			bo, ok := iff.Cond.(*ssa.BinOp)
+			if !ok {
+				continue
+			}
+			if _, isC := constInt(bo.Y); !isC {
+				continue
+			}
+			x := bo.X
+			if u, isU := x.(*ssa.UnOp); isU {
+				if sv := localLoadValue(u); sv != nil {
+					x = sv
+				}
+			}
+			if x == ssa.Value(dparam) && (bo.Op == token.GTR || bo.Op == token.GEQ) && errorReturnsOnly(f, b.Succs[0]) {
+				test = iff
+			}
+		}
+		if test == nil {
+			// passes the depth on to another target that tests it
+			passes := false
+			for _, b := range f.Blocks {
+				for _, in := range b.Instrs {
+					if ci, ok := in.(ssa.CallInstruction); ok && ci.Common().StaticCallee() != nil {
+						if _, isT := targets[ci.Common().StaticCallee()]; isT {
+							for _, arg := range ci.Common().Args {
+								if arg == ssa.Value(dparam) {
+									passes = true
+								}
+							}
+						}
+					}
+				}
+			}
+			if passes {
+				r.OK(key, p.Pos(f.Pos()), "hands its depth on to the function that tests it")
+			} else {
+				r.Bad(key, p.Pos(f.Pos()), "%s takes a nesting depth but never refuses: nothing bounds the recursion", p.FuncName(f))
+			}
+			continue
+		}
+		// no load / execution work before the test: the first instruction of the function's entry block chain
+		if test.Block() == f.Blocks[0] || f.Blocks[0].Dominates(test.Block()) {
+			r.OK(key, p.InstrPos(test), "refuses beyond a constant depth with an error, before any %s work", kind)
+		} else {
+			r.Bad(key, p.InstrPos(test), "the depth test does not come first")
+		}
+	}
+}
+
+func isIntType(T types.Type) bool {
+	b, ok := T.Underlying().(*types.Basic)
+	return ok && b.Info()&types.IsInteger != 0
+}
